@@ -112,37 +112,67 @@ func runC19(c *an.Ctx) {
 			}
 			c.Check(late == "", "sequence|Transaction.Deserialization|pend-after-last-read", "the end position is taken after the last read", c.P.Rel(pend.Pos()), "a read at "+late+" follows the end position")
 			// hash input
-			okHash := false
-			var sums []ssa.CallInstruction
-			for _, k := range an.Calls(deser) {
-				if f := k.Common().StaticCallee(); f != nil && f.String() == "crypto/sha256.Sum256" {
-					sums = append(sums, k)
+			// reread(v, lo, hi): v is the first result of NextBytes(hi-lo) on the source, re-read after BackUp of the
+			// same amount - followed through the private helpers Deserialization is split into
+			reread := func(v ssa.Value, lo, hi ssa.Value) bool {
+				ds := an.DerefCtx(deser, v, nil)
+				if len(ds) == 0 {
+					return false
 				}
-			}
-			if len(sums) >= 1 {
-				arg := sums[0].Common().Args[0]
-				if e, isE := arg.(*ssa.Extract); isE && e.Index == 0 {
-					if nb, isC := e.Tuple.(*ssa.Call); isC && an.CalleeObj(&nb.Call) == nextBytes {
-						if sub, isB := nb.Call.Args[1].(*ssa.BinOp); isB && sub.Op == token.SUB && sub.X == pos.Value() && sub.Y == pstart.Value() && an.RereadOK(nb) {
-							okHash = true
+				for _, dc := range ds {
+					d := dc.V
+					e, isE := d.(*ssa.Extract)
+					if !isE || e.Index != 0 {
+						return false
+					}
+					nb, isC := e.Tuple.(*ssa.Call)
+					if !isC || an.CalleeObj(&nb.Call) != nextBytes || !an.RereadOK(nb) {
+						return false
+					}
+					for _, nc := range an.DerefCtx(deser, nb.Call.Args[1], dc.Ctx) {
+						n := nc.V
+						sub, isB := n.(*ssa.BinOp)
+						if !isB || sub.Op != token.SUB {
+							return false
+						}
+						okX, okY := false, false
+						for _, x := range an.DerefCtx(deser, sub.X, nc.Ctx) {
+							okX = okX || x.V == hi
+						}
+						for _, y := range an.DerefCtx(deser, sub.Y, nc.Ctx) {
+							okY = okY || y.V == lo
+						}
+						if !okX || !okY {
+							return false
 						}
 					}
 				}
+				return true
+			}
+			okHash := false
+			var sums []ssa.CallInstruction
+			for _, g := range an.InlineReach(deser) {
+				for _, k := range an.Calls(g) {
+					if f := k.Common().StaticCallee(); f != nil && f.String() == "crypto/sha256.Sum256" {
+						sums = append(sums, k)
+					}
+				}
+			}
+			if len(sums) >= 1 {
+				okHash = reread(sums[0].Common().Args[0], pstart.Value(), pos.Value())
 			}
 			c.Check(okHash, "same-subject|Transaction.Deserialization|hash-input", "the transaction hash is sha256(sha256(bytes[pstart:pos])) of the consumed source bytes", c.P.Rel(deser.Pos()), "hash input is not the re-read range pos-pstart")
 			// Raw
 			okRaw := false
 			var rawStores []ssa.Instruction
-			for _, w := range an.DirectFieldWrites(deser) {
-				if w.Kind != "store" || w.Field.Name() != "Raw" {
-					continue
-				}
-				if e, isE := w.Val.(*ssa.Extract); isE && e.Index == 0 {
-					if nb, isC := e.Tuple.(*ssa.Call); isC && an.CalleeObj(&nb.Call) == nextBytes {
-						if sub, isB := nb.Call.Args[1].(*ssa.BinOp); isB && sub.Op == token.SUB && sub.X == pend.Value() && sub.Y == pstart.Value() && an.RereadOK(nb) {
-							okRaw = true
-							rawStores = append(rawStores, w.In)
-						}
+			for _, g := range an.InlineReach(deser) {
+				for _, w := range an.DirectFieldWrites(g) {
+					if w.Kind != "store" || w.Field.Name() != "Raw" {
+						continue
+					}
+					if reread(w.Val, pstart.Value(), pend.Value()) {
+						okRaw = true
+						rawStores = append(rawStores, w.In)
 					}
 				}
 			}
